@@ -4,6 +4,7 @@
 package simnet
 
 import (
+	"strings"
 	"fmt"
 	"io"
 	"net"
@@ -21,6 +22,9 @@ func (a Addr) String() string  { return string(a) }
 
 // Net is one simulated network.
 type Net struct {
+	// UnixLike: accepted connections report an empty remote address, as connections accepted on a unix socket do (every
+	// peer looks the same); Peer() still tells them apart for the harness
+	UnixLike  bool
 	R         *kernel.Run
 	mu        sync.Mutex
 	listeners map[string]*Listener
@@ -329,7 +333,15 @@ func (c *Conn) Inject(b []byte) {
 }
 
 func (c *Conn) LocalAddr() net.Addr                { return c.local }
-func (c *Conn) RemoteAddr() net.Addr               { return c.remote }
+func (c *Conn) RemoteAddr() net.Addr {
+	if c.n != nil && c.n.UnixLike && strings.HasSuffix(c.Name, ".srv") {
+		return Addr("")
+	}
+	return c.remote
+}
+
+// Peer2 is the name of the other end (the dialing actor for an accepted connection), whatever RemoteAddr reports.
+func (c *Conn) Peer2() string { return string(c.remote) }
 func (c *Conn) SetDeadline(t time.Time) error      { return nil }
 func (c *Conn) SetReadDeadline(t time.Time) error  { return nil }
 func (c *Conn) SetWriteDeadline(t time.Time) error { return nil }
